@@ -138,7 +138,7 @@ impl Prop for C13 {
          layer directories handed over in canonical or equivalent non-canonical spellings, optionally followed by a few writes through the filesystem, then queries: list(dir, pattern, localized) for dir in {root '', '.', existing, nested, with trailing slash, missing, a path that is a file} and pattern in {none, '*', '*.bin', '**/*.bin', '**/*', 'sub dir/*', 'map*'}, and subdirectories(dir, localized); 5 games x 8 languages. \
          Oracle, computed from a std::fs walk of every layer: the set of layer-relative paths (files and directories) strictly under dir in any layer whose dir is a directory, filtered by the harness's own matcher for that glob family, de-duplicated and sorted in ascending string order; \
          sub-directories = immediate child directories in any layer; every listed path satisfies exists(p, false); a missing directory lists as empty; list(d, g, true) == list(localize(d), g, false) (and an error for unsupported pairs). \
-         Two crowded layers (700 files, 87 sub-directories, half of the names in both layers) are listed with every pattern. Non-trivial: >= 2 layers contribute to a result and at least one listed path occurs in two of them; or a single-layer result whose glob order differs from sorted order. Distinct = distinct case value."
+         Two crowded layers (700 files, 87 sub-directories, half of the names in both layers) are listed with every pattern. Every other case with writes asks all its queries before the writes as well as after them (same oracle against the directories as they are at the time). Non-trivial: >= 2 layers contribute to a result and at least one listed path occurs in two of them; or a single-layer result whose glob order differs from sorted order. Distinct = distinct case value."
             .into()
     }
     fn assumptions() -> Vec<String> {
@@ -225,12 +225,22 @@ impl Prop for C13 {
             }
             None => return,
         };
-        for (p, payload, localized) in &case.writes {
-            let _ = cx.call(|| fs.write(p, &payload.bytes(), *localized));
-            cx.label("after-writes");
+        // every other case with writes asks all its queries BEFORE the writes as well (same oracle, against the directories as they are then):
+        // a listing is a function of what the layers hold at the time of the call, whatever was listed before
+        let before_too = !case.writes.is_empty() && (case.queries.len() + case.writes.len()) % 2 == 0;
+        for after_writes in [false, true] {
+        if !after_writes && !before_too {
+            continue;
         }
-        if cx.failed() {
-            return;
+        if after_writes {
+            for (p, payload, localized) in &case.writes {
+                let _ = cx.call(|| fs.write(p, &payload.bytes(), *localized));
+                cx.label("after-writes");
+            }
+            if cx.failed() {
+                return;
+            }
+            cx.label_if(before_too, "same-queries-before-and-after-the-writes");
         }
         let snaps = sb.snapshots();
         for (qi, q) in case.queries.iter().enumerate() {
@@ -310,6 +320,7 @@ impl Prop for C13 {
             cx.label_if(got.len() > 255, "result>255-entries");
             cx.label_if(q.subdirs, "subdirectories");
             cx.label_if(!q.subdirs && pat.is_some(), "with-pattern");
+        }
         }
     }
 }
